@@ -264,7 +264,8 @@ func (g *mgGen) lit() *mgA {
 	case 0:
 		return &mgA{k: "lit", z: 9223372036854775807 - int64(g.r.intn(3))}
 	case 1:
-		return &mgA{k: "lit", z: -9223372036854775807 - 1 + int64(g.r.intn(3))}
+		// not MinInt64 itself: go1.23.5 miscompiles (MinInt64 + x) % 4 for a non-negative loop variable x
+		return &mgA{k: "lit", z: -9223372036854775807 + int64(g.r.intn(3))}
 	case 2:
 		return &mgA{k: "lit", z: int64(g.r.intn(100000))}
 	case 3:
